@@ -19,3 +19,25 @@ func VerifHarness_C13_TransformRegex() {
 	}
 	_ = m
 }
+
+// VerifHarness_C09_TransformRegexOrder (kernel K10.transformregex, C09 / C08): the regex transformer maps every
+// source member whose rewritten name is a target member - several source members may share one target - and the
+// result does not depend on the order in which the members are visited (map iteration = every permutation).
+func VerifHarness_C09_TransformRegexOrder() {
+	src := map[string]any{"StatusActive": 1, "StatusActiveLegacy": 2, "StatusBlocked": 3}
+	if nondetBool("a-member-without-target") {
+		src["StatusGone"] = 4
+	}
+	tgt := map[string]any{"Active": 1, "Blocked": 2}
+	cfg := []string{`^Status(Active|Blocked)(Legacy)?$ $1`, `Status(\w+?)(Legacy)?$ $1`}[nondetChoice("config", 2)]
+	m, err := transformRegex(TransformContext{Config: cfg, Source: Enum{Members: src}, Target: Enum{Members: tgt}})
+	verifReach("done")
+	verifAssert("valid-config-accepted", err == nil)
+	if err != nil {
+		return
+	}
+	verifAssert("every-source-member-with-a-target-is-mapped", len(m) == 3)
+	verifAssert("members-mapped-by-rewritten-name", m["StatusActive"] == "Active" && m["StatusActiveLegacy"] == "Active" && m["StatusBlocked"] == "Blocked")
+	_, gone := m["StatusGone"]
+	verifAssert("member-without-target-left-out", !gone)
+}
